@@ -147,9 +147,6 @@ theorem descendInto_erase (v : Val) : descendInto (erase v) = (descendInto v).ma
   | cnd f c kw op ex => cases ex <;> simp [erase, descendInto, stkOf, Stk.erase]
   | _ => simp [erase, descendInto]
 
-theorem lastValue_erase (v : Val) : lastValue (erase v) = erase (lastValue v) := by
-  cases v <;> simp [erase, lastValue]
-
 theorem index_erase (l : List Val) (neg fwd : Bool) (i : Int) :
     ListSpec.index (eraseList l) neg fwd i = ((erase (ListSpec.index l neg fwd i).1), (ListSpec.index l neg fwd i).2) := by
   unfold ListSpec.index
@@ -166,25 +163,20 @@ theorem C12_traverse (K : Closures) (p : List Int) : ∀ s : Stk,
   | cons i rest ih =>
     intro s
     unfold descent
-    have hv : s.erase.valid K = s.valid K := rfl
     have hf : ∀ f, s.erase.flag f = s.flag f := fun _ => rfl
-    rw [hv]
-    cases s.valid K
+    have : s.erase.xs = eraseList s.xs := rfl
+    rw [this, hf, hf, index_erase]
+    simp only
+    cases (ListSpec.index s.xs (s.flag Gen.flag_negidx) (s.flag Gen.flag_fwdidx) i).2
     · simp [erase]
     · simp only [Bool.not_true, Bool.false_eq_true, ↓reduceIte]
-      have : s.erase.xs = eraseList s.xs := rfl
-      rw [this, hf, hf, index_erase]
-      simp only
-      cases (ListSpec.index s.xs (s.flag Gen.flag_negidx) (s.flag Gen.flag_fwdidx) i).2
-      · simp [erase]
-      · simp only [Bool.not_true, Bool.false_eq_true, ↓reduceIte]
-        cases rest with
-        | nil => simp [lastValue_erase]
-        | cons j rest' =>
-          simp only [descendInto_erase]
-          cases descendInto (ListSpec.index s.xs (s.flag Gen.flag_negidx) (s.flag Gen.flag_fwdidx) i).1 with
-          | none => simp [erase]
-          | some s' => simpa using ih s'
+      cases rest with
+      | nil => simp
+      | cons j rest' =>
+        simp only [descendInto_erase]
+        cases descendInto (ListSpec.index s.xs (s.flag Gen.flag_negidx) (s.flag Gen.flag_fwdidx) i).1 with
+        | none => simp [erase]
+        | some s' => simpa using ih s'
 
 /-- non-vacuity: a tree with an alias stack holding a pointer-to-alias condition renders like its native twin -/
 example : let t : Stk := ⟨{ kind := 1 }, [.stk .alias { kind := 2 } [.leaf (.str ['a']),
